@@ -134,6 +134,20 @@ pub fn gen_command(r: &mut Rng) -> Command {
     let v: Vec<String> = (0..n)
         .map(|_| if r.chance(1, 2) { r.pick(&["sh", "-c", "tar zcvf foo.tar.gz foo.py", "vi", ""]).to_string() } else { gen_string(r) })
         .collect();
+    // a command whose words hold no white space can also be given as one string (split at white space)
+    let plain = !v.is_empty() && v.iter().all(|a| !a.is_empty() && !a.chars().any(|c| c.is_whitespace()));
+    if plain && r.chance(1, 2) {
+        let joined = v.join(if r.chance(1, 2) { " " } else { "  \t" });
+        let c = match r.below(3) {
+            0 => Command::from(joined.as_str()),
+            1 => Command::from(joined.clone()),
+            _ => joined.parse::<Command>().unwrap_or_else(|_| Command::from(v.clone())),
+        };
+        if c != Command::from(v.clone()) {
+            crate::proto::generator_panic("a command given as one string is not the command of its words", format!("Command::from({:?})", joined));
+        }
+        return c;
+    }
     Command::from(v)
 }
 
@@ -161,6 +175,11 @@ pub fn gen_byproducts(r: &mut Rng, reserved_keys: bool) -> ByProducts {
             }
         };
         b = b.set_other_field(k, gen_string(r));
+    }
+    // (the whole map of further members at once)
+    if !reserved_keys && r.chance(1, 6) {
+        let m: BTreeMap<String, String> = (0..r.below(3)).map(|i| (format!("extra{}", i), gen_string(r))).collect();
+        b = b.set_other_fields(m);
     }
     b
 }
@@ -302,6 +321,10 @@ pub fn gen_layout(r: &mut Rng, pool: &[KeyInfo]) -> LayoutMetadata {
             .expected_command(gen_command(r))
             .expected_materials(gen_rules(r, &names))
             .expected_products(gen_rules(r, &names));
+        // (rules appended one by one)
+        if r.chance(1, 4) {
+            s = s.add_expected_material(gen_rule(r, &names)).add_expected_product(gen_rule(r, &names));
+        }
         for id in &ids {
             if r.chance(1, 2) {
                 s = s.add_key(id.clone());
